@@ -35,6 +35,13 @@ record header is recognised (jaspar/parse.rs and jaspar16/parse.rs, fn header):
   * fn header of jaspar/parse.rs and jaspar16/parse.rs: the string literals of `tag("..")` and
     `take_until("..")` -> gen_jaspar_header_tag / _until, gen_jaspar16_header_tag / _until (scalar values).
 
+  * {jaspar,jaspar16,uniprobe}/parse.rs: `gen_io_parse_uses_streaming` (the word `streaming`, `Incomplete` or `Needed` occurs),
+    `gen_io_parse_foreign_nom_paths` (nom paths outside bytes/character/number::complete, combinator, multi, sequence,
+    branch, error, IResult, Err::Error/Failure; glob or grouped `use nom..` count) and, from error.rs,
+    `gen_io_error_incomplete_is_panic` (the `nom::Err::Incomplete(_)` arm is unreachable!()/panic!()): the io model
+    (IoNom.pres) has no Incomplete result because nom's `complete` parsers never return it; C15io.io_parsers_are_complete
+    re-checks that premise (no streaming parser, or the arm no longer panics).
+
 coq/io/C15io.v re-checks (theorem reader_skeleton_is_modelled) that these are the sequences and
 literals the model IoJaspar.j_next_g / IoErr.j_next_e_g / IoErr.u_next_e was written for
 (IoPoll.model_*).  Harmless reformatting (blanks, line breaks, comments, trailing commas, optional
@@ -195,6 +202,34 @@ def parse_header(src, fname):
     return _chars(tags[0], fname + " header() tag"), _chars(untils[0], fname + " header() take_until")
 
 
+_NOM_OK = ("nom::bytes::complete", "nom::character::complete", "nom::number::complete", "nom::combinator", "nom::multi",
+           "nom::sequence", "nom::branch", "nom::error", "nom::IResult", "nom::Err::Error", "nom::Err::Failure", "nom::Parser")
+
+
+def parse_nom_use(src, fname):
+    """(uses_streaming, foreign): does the file mention a streaming combinator / construct Incomplete itself;
+    nom paths outside the modules whose parsers never return Err::Incomplete on &str input."""
+    streaming = bool(re.search(r"\bstreaming\b|\bIncomplete\b|\bNeeded\b", src))
+    foreign = []
+    for m in re.finditer(r"\bnom(?:\s*::\s*\w+)+", src):
+        path = re.sub(r"\s+", "", m.group(0))
+        if not any(path == ok or path.startswith(ok + "::") for ok in _NOM_OK):
+            foreign.append(path)
+    # glob / grouped imports hide the module of the names they bring in
+    for m in re.finditer(r"\buse\s+nom\b[^;]*;", src):
+        if "*" in m.group(0) or "{" in m.group(0):
+            foreign.append(re.sub(r"\s+", "", m.group(0)))
+    return streaming, sorted(set(foreign))
+
+
+def parse_error_incomplete(src):
+    """error.rs, `impl From<nom::Err<..>> for Error`: is the Incomplete arm a panic (unreachable!/panic!/unimplemented!/todo!)?"""
+    m = re.search(r"nom\s*::\s*Err\s*::\s*Incomplete\s*\([^)]*\)\s*=>\s*([^,]*),", src)
+    if not m:
+        raise ParseError("error.rs: no `nom::Err::Incomplete(_) => ..` arm in From<nom::Err<..>> for Error")
+    return bool(re.match(r"\s*\{?\s*(unreachable|panic|unimplemented|todo)\s*!", m.group(1)))
+
+
 def _nats(l):
     return "[" + "; ".join(str(x) for x in l) + "]"
 
@@ -203,7 +238,7 @@ def _ns(l):
     return "[" + "; ".join("%d%%N" % x for x in l) + "]"
 
 
-def emit(j, j16, u, hj, hj16):
+def emit(j, j16, u, hj, hj16, nomuse):
     o = []
     o.append("(* GENERATED by translate/io_reader.py from /repo/lightmotif-io/src/{jaspar,jaspar16,uniprobe}/mod.rs and")
     o.append("   {jaspar,jaspar16}/parse.rs on every run -- do not edit.  Statement codes: see translate/io_reader.py")
@@ -224,6 +259,12 @@ def emit(j, j16, u, hj, hj16):
     o.append("Definition gen_jaspar_header_until : list N := %s." % _ns(hj[1]))
     o.append("Definition gen_jaspar16_header_tag : list N := %s." % _ns(hj16[0]))
     o.append("Definition gen_jaspar16_header_until : list N := %s." % _ns(hj16[1]))
+    o.append("(* {jaspar,jaspar16,uniprobe}/parse.rs: does any of them mention a `streaming` combinator, `Incomplete` or `Needed`;")
+    o.append("   number of nom paths outside bytes/character/number::complete, combinator, multi, sequence, branch, error (glob and")
+    o.append("   grouped imports count); error.rs: is the `nom::Err::Incomplete(_)` arm of From<nom::Err<..>> a panic (unreachable!()) *)")
+    o.append("Definition gen_io_parse_uses_streaming : bool := %s." % ("true" if nomuse[0] else "false"))
+    o.append("Definition gen_io_parse_foreign_nom_paths : nat := %d." % nomuse[1])
+    o.append("Definition gen_io_error_incomplete_is_panic : bool := %s." % ("true" if nomuse[2] else "false"))
     return "\n".join(o) + "\n"
 
 
@@ -236,11 +277,17 @@ def translate():
         u = parse_uniprobe_next(io_abc._read("lightmotif-io/src/uniprobe/mod.rs"))
         hj = parse_header(io_abc._read("lightmotif-io/src/jaspar/parse.rs"), "jaspar/parse.rs")
         hj16 = parse_header(io_abc._read("lightmotif-io/src/jaspar16/parse.rs"), "jaspar16/parse.rs")
+        streaming, foreign = False, []
+        for f in ("jaspar", "jaspar16", "uniprobe"):
+            st, fo = parse_nom_use(io_abc._read("lightmotif-io/src/%s/parse.rs" % f), f + "/parse.rs")
+            streaming = streaming or st
+            foreign += ["%s/parse.rs:%s" % (f, x) for x in fo]
+        inc_panic = parse_error_incomplete(io_abc._read("lightmotif-io/src/error.rs"))
     except (ParseError, OSError) as e:
         return dict(ok=False, errors=["cannot parse source: %s" % e], notes=notes)
     except Exception as e:  # never crash: an unexpected shape is a broken obligation
         return dict(ok=False, errors=["cannot parse source: %r" % (e,)], notes=notes)
-    text = emit(j, j16, u, hj, hj16)
+    text = emit(j, j16, u, hj, hj16, (streaming, len(foreign), inc_panic))
     changed = False
     try:
         old = open(out).read()
@@ -252,10 +299,11 @@ def translate():
             f.write(text)
         changed = True
     notes.append("translator: GenIoReader.v %s (jaspar next %s delim %d; jaspar16 next %s delim %d; uniprobe next %s; "
-                 "header tags %r/%r until %r/%r)" % (
+                 "header tags %r/%r until %r/%r; parse.rs streaming/Incomplete mentioned: %s, foreign nom paths: %s, "
+                 "error.rs Incomplete arm is a panic: %s)" % (
                      "rewritten" if changed else "unchanged", j[0], j[1], j16[0], j16[1], u,
                      "".join(map(chr, hj[0])), "".join(map(chr, hj16[0])),
-                     "".join(map(chr, hj[1])), "".join(map(chr, hj16[1]))))
+                     "".join(map(chr, hj[1])), "".join(map(chr, hj16[1])), streaming, foreign or "none", inc_panic))
     return dict(ok=True, errors=[], notes=notes)
 
 
